@@ -74,6 +74,10 @@ type RunConfig struct {
 	MaxVTime    time.Duration `json:"max_vtime"`
 	QuietFrac   int           `json:"quiet_start_pct"` // quiet period starts at this % of MaxSteps
 	IdleQuantum time.Duration `json:"idle_quantum"`
+
+	LeaseOracle     bool `json:"lease_oracle"`
+	IsolationOracle bool `json:"isolation_oracle"`
+	ShutdownAtEnd   bool `json:"shutdown_at_end"`
 }
 
 func pick[T any](ch *simrt.Chooser, xs ...T) T { return xs[ch.Choose(simrt.SCfg, len(xs))] }
@@ -263,6 +267,7 @@ func applyProfile(c *RunConfig, ch *simrt.Chooser, p string) {
 		c.Faults["isolate_leader"] = 3
 		c.Faults["crash_leader"] = 2
 		if p == "C17" {
+			c.ShutdownAtEnd = true
 			c.Ops["shutdown"] = 1
 			c.Ops["membership"] = 3
 			c.Ops["restore"] = 1
@@ -289,6 +294,8 @@ func applyProfile(c *RunConfig, ch *simrt.Chooser, p string) {
 			c.FaultEvery = 1000
 		}
 	case "C13":
+		c.LeaseOracle = true
+		c.YieldDisk, c.YieldNet, c.YieldFSM = 100, 100, 100
 		noDiskErrors()
 		delete(c.Faults, "stall")
 		c.DiskSlowPct, c.FSMSlowPct, c.NotifySlowPct = 0, 0, 0
@@ -296,6 +303,9 @@ func applyProfile(c *RunConfig, ch *simrt.Chooser, p string) {
 		c.Faults["isolate_leader"] = 5
 		c.Faults["asym_partition"] = 3
 	case "C14":
+		c.IsolationOracle = true
+		c.LongDelayPct = 0
+		c.Spares, c.NonVoters = 0, 0
 		c.PreVoteDisabled = []bool{false}
 		c.Voters = pick(ch, 3, 5, 5)
 		c.Faults = map[string]int{"partition": 3, "heal": 2}
@@ -311,7 +321,14 @@ func applyProfile(c *RunConfig, ch *simrt.Chooser, p string) {
 		c.Clients = rangeInt(ch, 2, 4)
 		c.Faults = map[string]int{"partition": 2, "heal": 2, "stall": 1}
 		c.StoreFlavour = pick(ch, FlavourPlain, FlavourMonotonic)
-	case "clean":
+	case "clean", "C13b":
+		if p == "C13b" {
+			c.LeaseOracle = true
+			c.Ops = map[string]int{"apply": 20, "barrier": 2, "verify": 2, "snapshot": 1, "getconfig": 1}
+			c.MaxVTime = 6 * time.Hour
+			c.Spares = 0
+			c.ShutdownOnRemove = false
+		}
 		c.Faults = map[string]int{}
 		c.FaultEvery = 0
 		c.DropPct, c.DupPct, c.LongDelayPct, c.RespDropPct, c.SnapTruncPct = 0, 0, 0, 0, 0
